@@ -15,7 +15,7 @@ import random
 
 ID = "C23"
 TRACE = ("Trace_FloodFill", "Trace_FloodFill.cfg")
-CHUNK = 600
+CHUNK = 1500
 PARALLEL = 4
 BATCH = 2048
 
@@ -26,7 +26,7 @@ def model_check(ctx):
         ctx.mc("FloodFill", "MC_FloodFill_q.cfg", label="all designs x {material, air} flood fill on lattices of <= 9 cells, fixpoint loop")
         ctx.mc("FloodFill", "MC_FloodFill_q2.cfg", label="all 4096 designs on 2x2x3, material flood fill, fixpoint loop")
     else:
-        ctx.mc("FloodFill", "MC_FloodFill_t.cfg", label="all designs x {material, air} on 12 lattices up to 3x3x2 (2^18 designs)", timeout=3 * 3600)
+        ctx.mc("FloodFill", "MC_FloodFill_t.cfg", label="all designs x {material, air} on 11 lattices up to 12 cells", timeout=3 * 3600)
         ctx.mc("FloodFill", "MC_FloodFill_impl.cfg", label="code-as-written variant (max(shape) rounds, Z=1 padded) agrees with BoundedReach used for labelling")
     ctx.mc_negative("FloodFill", "MC_FloodFill_neg.cfg")  # loop bounded by max(shape): 6-cell helix on 2x2x3
     ctx.mc_negative("FloodFill", "MC_FloodFill_neg2.cfg")  # Z = 1 padded below: no seed
